@@ -739,10 +739,61 @@ func c13RewrittenMembership(c *runner.Ctx, r *runner.Rng) {
 	}
 }
 
+// c13OverloadRuntime: a failure inside the function an overloaded operator
+// stands for is located at the operator.
+func c13OverloadRuntime(c *runner.Ctx, r *runner.Rng) {
+	pre := r.Pick([]string{"P or\n ", "P or ", "A > 100 or\n\t "})
+	left := r.Pick([]string{"A", "B", "(A + 1)"})
+	src := pre + left + " / Z > 0"
+	off := len(pre) + len(left) + 1
+	wantLine, wantCol := 1, 0
+	for _, ru := range src[:off] {
+		if ru == '\n' {
+			wantLine, wantCol = wantLine+1, 0
+		} else {
+			wantCol++
+		}
+	}
+	c.Begin(src)
+	for _, optimize := range []bool{true, false} {
+		sample := envs.New(&envs.Log{})
+		p, co := SafeCompile(src, expr.Env(*sample), expr.Operator("/", "Div"), expr.Optimize(optimize))
+		c.Eval(1)
+		if co.Failed() {
+			c.Count("overload_runtime_rejected", 1)
+			return
+		}
+		e := envs.New(&envs.Log{})
+		envs.Fill(e, 3, runner.NewRng(3))
+		e.P, e.Z, e.A = false, 0, 5
+		o := SafeRun(p, *e)
+		c.Eval(1)
+		if o.Err == nil || o.Panic != nil {
+			c.Count("runtime_fault_did_not_fail", 1)
+			continue
+		}
+		c.SetAdd("fault_classes", "runtime-failure-in-overload-function")
+		cas := map[string]interface{}{"source_quoted": fmt.Sprintf("%q", src), "optimize": optimize, "operator": "/ -> Div", "error": o.Err.Error(), "expected_line": wantLine, "expected_column": wantCol}
+		fe := asFileError(o.Err)
+		if fe == nil || fe.Location.Empty() {
+			c.Violate("no-location:runtime-failure-in-overload-function", "the error carries no source location: "+firstLine(o.Err.Error()), cas)
+			return
+		}
+		if fe.Line != wantLine || fe.Column != wantCol {
+			c.Violate("wrong-position:runtime-failure-in-overload-function", fmt.Sprintf("error reported at (%d,%d), the operator is at (%d,%d)", fe.Line, fe.Column, wantLine, wantCol), cas)
+			return
+		}
+		c.Count("positions_exact", 1)
+	}
+}
+
 func c13SyntaxFixed(c *runner.Ctx, idx uint64) {
 	r := c.R
 	if idx%8 == 0 {
 		c13RewrittenMembership(c, r)
+	}
+	if idx%8 == 4 {
+		c13OverloadRuntime(c, r)
 	}
 	pre := r.Pick([]string{"", "A > 0 and", "P or", "[1, 2] == Ints ? 1 :", "not"})
 	post := r.Pick([]string{"", "and true", "or Q", "== P"})
